@@ -35,7 +35,7 @@ func init() {
 		},
 		Run: runC14,
 	})
-	ruleText["R14.1"] = "Symbols[\"importpath/name\"][N] is reflect.ValueOf(p.N) for a func or typed/bool/complex constant, reflect.ValueOf(&p.N).Elem() for a variable, reflect.ValueOf((*p.N)(nil)) for a type, or reflect.ValueOf(constant.MakeFromLiteral(lit, kind, 0)) with lit exactly equal to the untyped constant p.N; p resolves to importpath; the only other accepted form is a replacement listed in extract.restricted"
+	ruleText["R14.1"] = "Symbols[\"importpath/name\"][N] is reflect.ValueOf(p.N) for a func or typed/bool/complex constant, reflect.ValueOf(&p.N).Elem() for a variable, reflect.ValueOf((*p.N)(nil)) for a type, or reflect.ValueOf(constant.MakeFromLiteral(lit, kind, 0)) with lit exactly equal to the untyped constant p.N (or the exact fraction constant.BinaryOp(num, token.QUO, den) for an untyped float constant without finite decimal form); p resolves to importpath; the only other accepted form is a replacement listed in extract.restricted"
 	ruleText["R14.3"] = "for each wrapped package and release: bound names = exported, non-generic, non-constraint package-level objects of the installed library minus objects first declared by GOROOT/api files of later releases"
 	ruleText["R14.4"] = "the table key is importpath + \"/\" + the package's declared name; a key is assigned once per build configuration; the build constraint of a go1_NN_ file selects exactly release NN (go1_21) or >= NN (go1_22)"
 	ruleText["R14.5"] = "wrapper struct: field 0 is IValue interface{}, the other fields are exactly W<M> for each exported method M of the interface (for the file's release), typed identically to M's signature; method M of the wrapper has that signature and its body is a single call W.W<M>(params in order[, last...]) returned iff M has results (the nil guard on String is the one accepted extra statement)"
@@ -311,6 +311,50 @@ func (x *c14ctx) checkDenotation(b binding) (form string, ok bool, msg string) {
 						fmt.Sprintf("entry %q is bound to type %s.%s", b.name, tn.Pkg().Path(), tn.Name())
 				}
 			}
+		}
+		// constant.BinaryOp(MakeFromLiteral(num, INT, 0), token.QUO, MakeFromLiteral(den, INT, 0)):
+		// the exact fraction of an untyped float constant without finite decimal representation
+		if isCallTo(info, a, "go/constant.BinaryOp") && len(a.Args) == 3 {
+			if tp == nil {
+				return "const", false, "package " + b.importPath + " is not imported by the binding file"
+			}
+			obj, _ := tp.Scope().Lookup(b.name).(*types.Const)
+			bt, _ := types.Type(nil).(*types.Basic)
+			if obj != nil {
+				bt, _ = obj.Type().(*types.Basic)
+			}
+			if obj == nil || bt == nil || bt.Kind() != types.UntypedFloat {
+				return "const", false, fmt.Sprintf("%s.%s is not an untyped float constant but is bound as a fraction", b.importPath, b.name)
+			}
+			part := func(e ast.Expr) (constant.Value, bool) {
+				c, ok := unparen(e).(*ast.CallExpr)
+				if !ok || !isCallTo(info, c, "go/constant.MakeFromLiteral") || len(c.Args) != 3 {
+					return nil, false
+				}
+				ltv, ok1 := info.Types[c.Args[0]]
+				ktv, ok2 := info.Types[c.Args[1]]
+				if !ok1 || !ok2 || ltv.Value == nil || ktv.Value == nil {
+					return nil, false
+				}
+				k, _ := constant.Int64Val(ktv.Value)
+				v := constant.MakeFromLiteral(constant.StringVal(ltv.Value), token.Token(k), 0)
+				return v, v.Kind() == constant.Int
+			}
+			num, ok1 := part(a.Args[0])
+			den, ok2 := part(a.Args[2])
+			optv, ok3 := info.Types[a.Args[1]]
+			if !ok1 || !ok2 || !ok3 || optv.Value == nil {
+				return "const", false, "fraction form: numerator, denominator or operator is not a constant integer literal"
+			}
+			op, _ := constant.Int64Val(optv.Value)
+			if token.Token(op) != token.QUO || constant.Sign(den) == 0 {
+				return "const", false, "fraction form: the operator is not token.QUO or the denominator is zero"
+			}
+			got := constant.BinaryOp(num, token.QUO, den)
+			if !constant.Compare(constant.ToFloat(got), token.EQL, constant.ToFloat(obj.Val())) {
+				return "const", false, fmt.Sprintf("%s.%s: bound fraction %s differs from the constant's exact value %s", b.importPath, b.name, fmtConst(got), fmtConst(obj.Val()))
+			}
+			return "const", true, ""
 		}
 		// constant.MakeFromLiteral(lit, token.K, 0)
 		if isCallTo(info, a, "go/constant.MakeFromLiteral") && len(a.Args) == 3 {
